@@ -2,8 +2,11 @@
 package smoke
 
 import (
+	"bufio"
+	"crypto/rand"
 	"errors"
 	"fmt"
+	"io"
 	"sort"
 	"strconv"
 
@@ -119,4 +122,85 @@ func Threads() {
 	vx.Assert("sum", a+b == 3)
 	vx.Assert("total", total == 3)
 	vx.Reach("threads.end")
+}
+
+var bufRand = bufio.NewReaderSize(rand.Reader, 64)
+
+// RandReader: crypto/rand.Reader behind a bufio.Reader (package-level initialiser, as a refactor might write it).
+func RandReader() {
+	b := make([]byte, 12)
+	n, err := io.ReadFull(bufRand, b)
+	vx.Assert("smoke.randreader", n == 12 && err == nil)
+	vx.Assert("smoke.randreader_fresh", vx.FreshDraw(b))
+	vx.Reach("randreader.end")
+}
+
+func RandReader2() {
+	b := make([]byte, 12)
+	n, err := rand.Reader.Read(b)
+	vx.Assert("smoke.randreader2", n == 12 && err == nil)
+	r := bufio.NewReaderSize(rand.Reader, 64)
+	n, err = r.Read(b)
+	vx.Assert("smoke.randreader3", n == 12 && err == nil)
+	vx.Reach("randreader.end")
+}
+
+type zeroReader struct{}
+
+func (zeroReader) Read(p []byte) (int, error) { return len(p), nil }
+
+func RandReader3() {
+	b := make([]byte, 12)
+	r := bufio.NewReaderSize(zeroReader{}, 64)
+	n, err := r.Read(b)
+	vx.Assert("smoke.randreader3", n == 12 && err == nil)
+	vx.Reach("randreader.end")
+}
+
+type rdr struct {
+	buf          []byte
+	rd           io.Reader
+	r, w         int
+	err          error
+	lastByte     int
+	lastRuneSize int
+}
+
+func (b *rdr) reset(buf []byte, r io.Reader) {
+	*b = rdr{buf: buf, rd: r, lastByte: -1, lastRuneSize: -1}
+}
+
+func newRdr(rd io.Reader, size int) *rdr {
+	b, ok := rd.(*rdr)
+	if ok && len(b.buf) >= size {
+		return b
+	}
+	r := new(rdr)
+	r.reset(make([]byte, max(size, 16)), rd)
+	return r
+}
+
+func RandReader4() {
+	r := newRdr(zeroReader{}, 64)
+	vx.Assert("smoke.rdr_set", r.rd != nil && len(r.buf) == 64 && r.lastByte == -1)
+	vx.Reach("randreader.end")
+}
+
+func (b *rdr) Read(p []byte) (int, error) { return b.rd.Read(p) }
+
+func RandReader5() {
+	r := new(rdr)
+	r.reset(make([]byte, 64), zeroReader{})
+	vx.Assert("smoke.a1_lastbyte", r.lastByte == -1)
+	vx.Assert("smoke.a2_buf", len(r.buf) == 64)
+	vx.Assert("smoke.a3_rd", r.rd != nil)
+	r2 := new(rdr)
+	*r2 = rdr{buf: make([]byte, 3), rd: zeroReader{}, lastByte: -1}
+	vx.Assert("smoke.b_store_literal", r2.rd != nil && len(r2.buf) == 3 && r2.lastByte == -1)
+	n := max(3, 16)
+	vx.Assert("smoke.c_max", n == 16)
+	var rd io.Reader = zeroReader{}
+	b, ok := rd.(*rdr)
+	vx.Assert("smoke.d_assert", !ok && b == nil)
+	vx.Reach("randreader.end")
 }
